@@ -314,10 +314,11 @@ def run(ctx):
 
     quick = ctx.tier == "quick"
     # (mode, save_every, histories, steps)
-    # save_every 16 > alt_preserve: finalization then jumps by more than the preserved window in one call
-    plan = [("fin", 1, 4, 110), ("loaded", 1, 4, 110), ("loaded", 3, 3, 110), ("fin", 4, 2, 110), ("fin", 16, 3, 110)] if quick else \
+    # save_every 90 (about 15 chain blocks > alt_preserve): finalization then jumps by more than the preserved window
+    # in one call, so blocks are deallocated that were never marked final before (fix 057feaed)
+    plan = [("fin", 1, 4, 110), ("loaded", 1, 4, 110), ("loaded", 3, 3, 110), ("fin", 4, 2, 110), ("fin", 90, 2, 150)] if quick else \
            [("fin", 1, 40, 160), ("loaded", 1, 40, 160), ("loaded", 3, 30, 160), ("fin", 4, 20, 160), ("loaded", 7, 20, 200),
-            ("fin", 16, 20, 200), ("loaded", 17, 10, 200)]
+            ("fin", 90, 30, 200), ("fin", 16, 10, 200)]
     evaluations = 0
     hno = 0
     found = False
